@@ -12,6 +12,7 @@ import math
 import random
 
 REGISTRY = []          # contracts in declaration order
+FLOAT_TOL = [0.0]      # relative tolerance of same() on floats, set per contract by the native runner
 REAL = {}              # bound real objects: XLError class, error singletons
 
 
@@ -34,7 +35,8 @@ class Outcome(object):
 
     def __repr__(self):
         if self.ret:
-            return 'Return(%r)' % (self.value,)
+            r = repr(self.value)
+            return 'Return(%s)' % (r if len(r) < 400 else r[:200] + '...<%d chars>...' % len(r) + r[-50:],)
         return 'Raise(%s%s)' % (self.exc, '' if self.err is None else ', %r' % (self.err,))
 
 
@@ -95,6 +97,11 @@ def ARGS(elem=SCALAR, minlen=0, maxlen=None):
 
 def CONST(v):
     return Dom([], const=v, has_const=True)
+
+
+def CHOICE(*vals):
+    """ native sampling only: one of the listed values """
+    return Dom(['choice'], attrs={'vals': list(vals)}, label='CHOICE%r' % (vals,))
 
 
 def TUPLE(*parts):
@@ -290,6 +297,8 @@ def same(a, b):
         return a is b
     if isinstance(a, type) or isinstance(b, type):
         return a is b
+    if isinstance(a, datetime.datetime) and isinstance(b, datetime.datetime) and FLOAT_TOL[0] > 0:
+        return abs((a - b).total_seconds()) <= 0.001      # date-times agree to the millisecond (C13)
     if type(a) is not type(b):
         return False
     if isinstance(a, float):
@@ -297,7 +306,8 @@ def same(a, b):
             return True
         if a != a and b != b:
             return True
-        return abs(a - b) <= 1e-9 * max(abs(a), abs(b))
+        # exact unless the contract under check declares float_tol (specs computed in a different operation order)
+        return FLOAT_TOL[0] > 0 and abs(a - b) <= FLOAT_TOL[0] * max(abs(a), abs(b), 1e-300)
     if is_obj(a) or is_obj(b):
         return a is b
     return a == b
@@ -372,6 +382,11 @@ def label_parts(label):
 def parsed_label(index, label, is_absolute):
     from hotxlfp.helper.cell import ParsedLabel
     return ParsedLabel(index=index, label=label, is_absolute=is_absolute)
+
+
+def is_digits(s):
+    import re
+    return isinstance(s, str) and re.match(r'[0-9]+\Z', s) is not None
 
 
 def is_cell_label(s):
@@ -459,9 +474,9 @@ def ceil(x):
 
 
 NATIVE_NAMES = ['Outcome', 'Dom', 'NONE_T', 'BOOL', 'INT', 'FLOAT', 'STR', 'ERR', 'DATE', 'NUMBER', 'NUMBERB', 'SCALAR',
-                'HOSTOBJ', 'ANY', 'VALUE_T', 'SEQ', 'ARGS', 'CONST', 'TUPLE', 'LISTN', 'OBJECT', 'HOSTFN', 'SYMMAP', 'SYMMAP_LISTS', 'OMITTED', 'host_calls', 'emits', 'setter_values', 'registry_has', 'registry_fn', 'map_has', 'map_get', 'PROD', 'calls', 'call_result', 'result_of', 'contract',
+                'HOSTOBJ', 'ANY', 'VALUE_T', 'SEQ', 'ARGS', 'CONST', 'CHOICE', 'TUPLE', 'LISTN', 'OBJECT', 'HOSTFN', 'SYMMAP', 'SYMMAP_LISTS', 'OMITTED', 'host_calls', 'emits', 'setter_values', 'registry_has', 'registry_fn', 'map_has', 'map_get', 'PROD', 'calls', 'call_result', 'result_of', 'contract',
                 'lemma', 'is_none', 'is_bool', 'is_int', 'is_float', 'is_num', 'is_numb', 'is_str', 'is_err', 'is_date',
-                'is_list', 'is_obj', 'same', 'truthy', 'implies', 'raises', 'raise_err', 'forall', 'exists', 'flat', 'collapse_spaces', 'replace_kth', 'col_value', 'col_label', 'is_cell_label', 'label_parts', 'parsed_label', 'parity_true', 'xl_type', 'date_us', 'date_from_us', 'dateutil_parse',
+                'is_list', 'is_obj', 'same', 'truthy', 'implies', 'raises', 'raise_err', 'forall', 'exists', 'flat', 'collapse_spaces', 'replace_kth', 'col_value', 'col_label', 'is_cell_label', 'is_digits', 'label_parts', 'parsed_label', 'parity_true', 'xl_type', 'date_us', 'date_from_us', 'dateutil_parse',
                 'int_of_text', 'text_is_int', 'float_of_text', 'text_is_float', 'errmsg', 'is_canonical', 'real',
                 'floor', 'ceil']
 ERR_NAMES = ['ERROR', 'DIV_ZERO', 'NAME', 'NOT_AVAILABLE', 'NULL', 'NUM', 'REF', 'VALUE', 'DATA']
@@ -512,7 +527,7 @@ SAMPLE_POOL = {
     'bool': [True, False],
     'int': [0, 1, -1, 2, 3, -2, 5, 7, 10, 26, 27, 60, 61, 255, -40, 1000, 2**31, 2**40, -2**39, 2**53 + 1],
     'float': [0.0, 0.5, -0.5, 1.0, 1.5, -1.5, 2.25, 3.7, -2.5, 61.25, 1e10, -1e-3, 0.1],
-    'str': ['', 'a', 'A', 'abc', 'Abc Def', ' a  b ', '12', '-3.5', '1e3', 'x*', 'a?c', '\tA\n', ' ', 'TRUE', '0',
+    'str': ['', 'a', 'A', 'abc', 'Abc Def', ' a  b ', '12', '35', '7', '57', '-3.5', '1e3', 'x*', 'a?c', '\tA\n', ' ', 'TRUE', '0',
             u'été', u'中文', 'aXbXc', '#N/A', '1900-03-01', 'A1', '$B$2', 'ab\x01c'],
     'date': [datetime.datetime(1900, 1, 1), datetime.datetime(1900, 2, 28), datetime.datetime(1900, 3, 1),
              datetime.datetime(1900, 3, 2), datetime.datetime(2000, 2, 29, 12, 30, 15), datetime.datetime(2024, 12, 31),
@@ -526,6 +541,8 @@ def samples_of(dom, rng, depth=0):
         return [OMITTED]
     if dom.has_const:
         return [dom.const]
+    if 'choice' in dom.kinds:
+        return list(dom.attrs['vals'])
     if 'prod' in dom.kinds:
         pools = [samples_of(d, rng, depth + 1) for _, d in dom.attrs['parts']]
         names = [n for n, _ in dom.attrs['parts']]
